@@ -61,10 +61,19 @@ class Probe:
         self.total = 0
 
 
-_STACK = []  # probes of (possibly nested) runs; innermost last
+import threading as _threading
+
+
+class _Stacks(_threading.local):
+    def __init__(self):
+        self.stack = []   # probes of (possibly nested) runs of *this thread*; innermost last
+
+
+_TLS = _Stacks()
 
 
 def _run_coroutine(self, target, signal=None):
+    _STACK = _TLS.stack
     if not _STACK:
         return _ORIG_RUN(self, target, signal)
     p = _STACK[-1]
@@ -100,6 +109,7 @@ def _run_coroutine(self, target, signal=None):
 
 
 def _schedule(self, target, signal=None, *, delay=None, at=None):
+    _STACK = _TLS.stack
     if _STACK:
         p = _STACK[-1]
         if p.record_sched and (p.loop is None or self is p.loop):
@@ -123,6 +133,7 @@ def run_probed(roots, start=0, till=None, probe=None, wall=60):
     outcome: 'ok' | 'exc' (exc leaving run) | 'livelock' | 'runaway' | 'timeout'
     """
     p = probe or Probe()
+    _STACK = _TLS.stack
     _STACK.append(p)
     old = None
     use_alarm = wall and not _STACK[:-1]
